@@ -6,7 +6,7 @@ from guards import timed
 RULE = ("BitPaddedInt.to_str / BitPaddedInt(bytes): all integers below 2**10 (quick) / 2**16 (thorough) plus the carry lattice "
         "around 2**(bits*k) up to 2**35 and negatives, x bits 1..8 x widths {0..5,-1} x endianness; unsynch: all strings over "
         "{00,01,7F,80,DF,E0,FE,FF} up to length 5 (quick) / 7 (thorough) plus random long strings, encode and decode (decode also "
-        "on unsafe input); hand-built unsynchronised v2.3 tags and v2.4 frames read through ID3(). Non-trivial: the call returned a "
+        "on unsafe input); hand-built unsynchronised v2.2/v2.3 tags and v2.4 frames read through ID3(). Non-trivial: the call returned a "
         "non-empty encoding or was rejected; distinct by full argument tuple")
 
 HANGS = [0]
@@ -237,7 +237,13 @@ def run_tags(ctx):
         f24u = b"PRIV" + syncsafe(len(ub)) + b"\x00\x02" + ub + b"TIT2" + syncsafe(len(t)) + b"\x00\x00" + t
         plain24 = b"ID3\x04\x00\x00" + syncsafe(len(f24p)) + f24p
         uns24 = b"ID3\x04\x00\x80" + syncsafe(len(f24u)) + f24u
-        for name, a, b in (("v2.3", plain23, uns23), ("v2.4", plain24, uns24)):
+        # v2.2: 3-byte ids and sizes, whole-tag unsynchronisation (flag bit 7); PRIV has no v2.2 form: UFI carries bytes
+        b22 = b"own\x00" + p
+        frames22 = b"UFI" + len(b22).to_bytes(3, "big") + b22 + b"TT2" + len(t).to_bytes(3, "big") + t
+        plain22 = b"ID3\x02\x00\x00" + syncsafe(len(frames22)) + frames22
+        u22 = ref_unsynch(frames22)
+        uns22 = b"ID3\x02\x00\x80" + syncsafe(len(u22)) + u22
+        for name, a, b in (("v2.3", plain23, uns23), ("v2.4", plain24, uns24), ("v2.2", plain22, uns22)):
             def load(x):
                 tag = ID3(io.BytesIO(x), translate=False)
                 return sorted((k, repr(v)) for k, v in tag.items())
